@@ -109,6 +109,13 @@ Ltac split_if :=
   | |- safe _ (if ?a =? ?b then _ else _) => destruct (N.eqb_spec a b)
   end.
 
+Ltac split_any :=
+  match goal with
+  | |- context [if ?a <? ?b then _ else _] => destruct (N.ltb_spec a b)
+  | |- context [if ?a <=? ?b then _ else _] => destruct (N.leb_spec a b)
+  | |- context [if ?a =? ?b then _ else _] => destruct (N.eqb_spec a b)
+  end.
+
 Section Safe.
 Variable L : N.
 Hypothesis HL : CapOk L.
@@ -119,16 +126,336 @@ Proof.
   prim. apply safe_ok. repeat split; cbn; [lia|assumption|assumption].
 Qed.
 
-Ltac finish := first [ apply safe_ok; assumption
+Ltac inv_goal :=
+  unfold Inv; cbn [buf len];
+  rewrite ?trunc_id by (assumption || (unfold M64 in *; lia));
+  repeat split; first [assumption | side].
+Ltac finish := first [ apply safe_ok; solve [inv_goal]
                      | apply fin_safe; [side | unfold M64 in *; lia] ].
 
 Ltac go := destruct HL as [HL1 HL2];
-  repeat (s64; first [ finish | split_if | prim ]).
+  repeat (s64; first [ finish | split_if | prim | split_any ]).
 
 Lemma insert_nc_safe s index count ch :
   Inv L s -> index < M64 -> count < M64 -> safe L (insert_nc L s index count ch).
 Proof.
   intros (Hb & Hl & Hz) Hi Hc. unfold insert_nc. cbv zeta. go.
+Qed.
+
+Lemma insert_pc_safe s index arr count :
+  Inv L s -> index < M64 -> count < M64 -> count <= nlen arr ->
+  safe L (insert_pc L s index arr count).
+Proof.
+  intros (Hb & Hl & Hz) Hi Hc Ha. unfold insert_pc. cbv zeta. go.
+Qed.
+
+Lemma internal_copy_safe s src n :
+  nlen (buf s) = L + 1 -> n <= L -> n <= nlen src -> safe L (internal_copy L s src n).
+Proof.
+  intros Hb Hn Hs. destruct HL as [HL1 HL2]. unfold internal_copy. cbv zeta.
+  rewrite trunc_id by assumption.
+  destruct (N.ltb_spec 0 n).
+  - destruct (mcpy_safe (buf s) 0 src 0 n) as (b1 & E & Hl1); [side|]. rewrite E. cbn [bind].
+    destruct (wr_safe b1 n 0) as (b2 & E2 & Hl2 & Hn2 & _); [side|]. rewrite E2. cbn [bind].
+    apply safe_ok. repeat split; cbn; [lia|assumption|assumption].
+  - cbn [bind].
+    destruct (wr_safe (buf s) n 0) as (b2 & E2 & Hl2 & Hn2 & _); [side|]. rewrite E2. cbn [bind].
+    apply safe_ok. repeat split; cbn; [lia|assumption|assumption].
+Qed.
+
+Lemma assign_arr_safe s arr n :
+  nlen (buf s) = L + 1 -> n <= nlen arr -> safe L (assign_arr L s arr n).
+Proof. intros. unfold assign_arr. apply internal_copy_safe; [assumption|lia|lia]. Qed.
+
+Lemma zero_fs_len : nlen (buf (zero_fs L)) = L + 1.
+Proof. cbn. apply nlen_rep. Qed.
+
+Lemma zero_fs_inv : Inv L (zero_fs L).
+Proof.
+  repeat split; cbn; [apply nlen_rep|lia|]. rewrite nthN_rep. now destruct (0 <? L + 1).
+Qed.
+
+Lemma ctor_mv_safe o : Inv L o -> safe L (ctor_mv L o).
+Proof.
+  intros (Hb & Hl & Hz). unfold ctor_mv. destruct HL as [HL1 HL2].
+  rewrite trunc_id by assumption. destruct (N.ltb_spec 0 (len o)).
+  - apply internal_copy_safe; [apply zero_fs_len|assumption|lia].
+  - apply safe_ok. replace (len o) with 0 by lia. apply zero_fs_inv.
+Qed.
+
+Lemma clear_safe s : Inv L s -> safe L (clear L s).
+Proof.
+  intros (Hb & Hl & Hz). unfold clear. destruct HL as [HL1 HL2].
+  rewrite trunc_id by (assumption || lia). prim.
+  apply safe_ok. repeat split; cbn; [lia|lia|assumption].
+Qed.
+
+Lemma erase_safe s index count :
+  Inv L s -> index < M64 -> count < M64 -> safe L (erase L s index count).
+Proof.
+  intros (Hb & Hl & Hz) Hi Hc. unfold erase. cbv zeta. go.
+Qed.
+
+Lemma push_back_safe s ch : Inv L s -> safe L (push_back L s ch).
+Proof. intros (Hb & Hl & Hz). unfold push_back. cbv zeta. go. Qed.
+
+Lemma pop_back_safe s : Inv L s -> safe L (pop_back L s).
+Proof. intros (Hb & Hl & Hz). unfold pop_back. cbv zeta. go. Qed.
+
+Lemma append_impl_safe s arr pos count :
+  Inv L s -> pos < M64 -> count < M64 -> pos + count <= nlen arr ->
+  safe L (append_impl L s arr pos count).
+Proof. intros (Hb & Hl & Hz) Hp Hc Ha. unfold append_impl. cbv zeta. go. Qed.
+
+Lemma append_nc_safe s count ch : Inv L s -> count < M64 -> safe L (append_nc L s count ch).
+Proof.
+  intros Hs Hc. pose proof Hs as (Hb & Hl & Hz). unfold append_nc.
+  destruct (N.eqb_spec (len s) L); [apply safe_ok; assumption|].
+  destruct HL as [HL1 HL2].
+  rewrite sub64_small by (unfold M64 in *; lia).
+  apply append_impl_safe; try assumption; rewrite ?nlen_carr, ?nlen_rep; unfold M64 in *; lia.
+Qed.
+
+Lemma append_ss_safe s x pos count :
+  Inv L s -> pos < M64 -> count < M64 -> nlen x + 1 < M64 -> safe L (append_ss L s x pos count).
+Proof.
+  intros Hs Hp Hc Hx. unfold append_ss.
+  destruct (N.ltb_spec (nlen x) pos); [apply safe_ok; assumption|].
+  rewrite sub64_small by (unfold M64 in *; lia).
+  apply append_impl_safe; try assumption; rewrite ?nlen_carr; unfold M64 in *; lia.
+Qed.
+
+Lemma append_fss_safe s o pos count :
+  Inv L s -> Inv L o -> pos < M64 -> count < M64 -> safe L (append_fss L s o pos count).
+Proof.
+  intros Hs (Hbo & Hlo & Hzo) Hp Hc. unfold append_fss. destruct HL as [HL1 HL2].
+  destruct (N.ltb_spec (len o) pos); [apply safe_ok; assumption|].
+  rewrite sub64_small by (unfold M64 in *; lia).
+  apply append_impl_safe; try assumption; rewrite ?Hbo; unfold M64 in *; lia.
+Qed.
+
+Lemma append_it_safe s o p q :
+  Inv L s -> Inv L o -> p <= q -> q <= len o -> safe L (append_it L s o p q).
+Proof.
+  intros Hs (Hbo & Hlo & Hzo) Hpq Hq. pose proof Hs as (Hb & Hl & Hz).
+  unfold append_it, it_at. destruct HL as [HL1 HL2]. cbv zeta.
+  destruct (N.ltb_spec p (len o)) as [Hp|Hp]; destruct (N.ltb_spec q (len o)) as [Hq'|Hq'].
+  - destruct (N.eqb_spec p q); cbn [orb]; [apply safe_ok; assumption|].
+    destruct (N.eqb_spec (len s) L); [apply safe_ok; assumption|].
+    destruct (N.eqb_spec p NPOS); [unfold NPOS, M64 in *; lia|].
+    destruct (N.eqb_spec q NPOS); [unfold NPOS, M64 in *; lia|].
+    rewrite sub64_small by (unfold M64 in *; lia).
+    apply append_impl_safe; try assumption; rewrite ?nlen_drop, ?Hbo; unfold M64 in *; lia.
+  - destruct (N.eqb_spec p NPOS); cbn [orb]; [unfold NPOS, M64 in *; lia|].
+    destruct (N.eqb_spec (len s) L); [apply safe_ok; assumption|].
+    rewrite N.eqb_refl.
+    rewrite sub64_small by (unfold M64 in *; lia).
+    apply append_impl_safe; try assumption; rewrite ?nlen_drop, ?Hbo; unfold M64 in *; lia.
+  - lia.
+  - rewrite N.eqb_refl. cbn [orb]. apply safe_ok; assumption.
+Qed.
+
+Lemma sprintf_safe s text : Inv L s -> safe L (sprintf_ L s text).
+Proof.
+  intros (Hb & Hl & Hz). unfold sprintf_. cbv zeta. destruct HL as [HL1 HL2].
+  pose proof (cstrlen_le text) as Hc.
+  destruct (mcpy_safe (buf s) 0 (take (N.min (cstrlen text) L) text ++ [0]) 0
+              (N.min (cstrlen text) L + 1)) as (b1 & E & Hl1).
+  { right. rewrite nlen_app, nlen_take. unfold nlen at 2. cbn [length N.of_nat]. side. }
+  rewrite E. cbn [bind]. apply fin_safe; [side|lia].
+Qed.
+
+Lemma replace_impl_safe s pos1 count1 arr pos2 count2 :
+  Inv L s -> pos1 < M64 -> count1 < M64 -> pos2 < M64 -> count2 < M64 ->
+  pos2 + count2 <= nlen arr ->
+  safe L (replace_impl L s pos1 count1 arr pos2 count2).
+Proof.
+  intros (Hb & Hl & Hz) H1 H2 H3 H4 Ha. unfold replace_impl. cbv zeta.
+  destruct HL as [HL1 HL2].
+  destruct (N.ltb_spec (len s) pos1); [apply safe_ok; repeat split; assumption|].
+  s64.
+  set (c1 := if len s - pos1 <? count1 then len s - pos1 else count1).
+  set (cl := if L - pos1 <? count2 then L - pos1 else count2).
+  assert (Hc1 : c1 <= len s - pos1) by (unfold c1; destruct (N.ltb_spec (len s - pos1) count1); lia).
+  assert (Hcl : cl <= L - pos1 /\ cl <= count2) by (unfold cl; destruct (N.ltb_spec (L - pos1) count2); lia).
+  destruct (N.eqb_spec c1 cl) as [Ec|Ec]; cbn [bind].
+  - destruct (mcpy_safe (buf s) pos1 arr pos2 cl) as (b2 & E & Hl2); [side|].
+    rewrite E. cbn [bind]. apply safe_ok. repeat split; cbn [buf len]; [lia|assumption|].
+    (* the terminator is not overwritten: pos1 + cl = pos1 + c1 <= len s *)
+    rewrite mcpy_ok in E by side. inversion E; subst b2. clear E.
+    destruct (N.eqb_spec cl 0); [assumption|].
+    rewrite nthN_blit by (rewrite nlen_take, nlen_drop; lia).
+    rewrite nlen_take, nlen_drop.
+    destruct (N.ltb_spec (len s) pos1); [lia|].
+    destruct (N.ltb_spec (len s) (pos1 + N.min cl (nlen arr - pos2))); [lia|assumption].
+  - s64.
+    set (r0 := len s - pos1 - c1).
+    set (rest := if L - pos1 - cl <? r0 then L - pos1 - cl else r0).
+    assert (Hr : rest <= r0 /\ rest <= L - pos1 - cl)
+      by (unfold rest; destruct (N.ltb_spec (L - pos1 - cl) r0); lia).
+    unfold r0 in *.
+    destruct (mmove_safe (buf s) (pos1 + cl) (pos1 + c1) rest) as (b1 & E & Hl1); [side|].
+    rewrite E. cbn [bind]. clear E.
+    s64.
+    unfold fin. rewrite trunc_id by (assumption || lia).
+    destruct (wr_safe b1 (pos1 + cl + rest) 0) as (b2 & E2 & Hl2 & Hn2 & Ho2); [side|].
+    rewrite E2. cbn [bind buf len]. clear E2.
+    destruct (mcpy_safe b2 pos1 arr pos2 cl) as (b3 & E3 & Hl3); [side|].
+    rewrite E3. cbn [bind]. apply safe_ok. repeat split; cbn [buf len]; [lia|lia|].
+    rewrite mcpy_ok in E3 by side. inversion E3; subst b3. clear E3.
+    destruct (N.eqb_spec cl 0); [assumption|].
+    rewrite nthN_blit by (rewrite nlen_take, nlen_drop; lia).
+    rewrite nlen_take, nlen_drop.
+    destruct (N.ltb_spec (pos1 + cl + rest) pos1); [lia|].
+    destruct (N.ltb_spec (pos1 + cl + rest) (pos1 + N.min cl (nlen arr - pos2))); [lia|assumption].
+Qed.
+
+Lemma replace_sub_safe s pos1 count1 arr alen pos2 count2 :
+  Inv L s -> pos1 < M64 -> count1 < M64 -> pos2 < M64 -> count2 < M64 ->
+  alen <= nlen arr -> alen < M64 ->
+  safe L (replace_sub L s pos1 count1 arr alen pos2 count2).
+Proof.
+  intros Hs H1 H2 H3 H4 Ha Hm. unfold replace_sub.
+  destruct (N.ltb_spec alen pos2); [apply safe_ok; assumption|].
+  rewrite sub64_small by (unfold M64 in *; lia).
+  apply replace_impl_safe; try assumption; unfold M64 in *; lia.
+Qed.
+
+Lemma replace_nc_safe s pos count count2 ch :
+  Inv L s -> pos < M64 -> count < M64 -> count2 < M64 ->
+  safe L (replace_nc L s pos count count2 ch).
+Proof.
+  intros Hs H1 H2 H3. unfold replace_nc. cbv zeta. destruct HL as [HL1 HL2].
+  apply replace_impl_safe; try assumption; rewrite ?nlen_carr, ?nlen_rep; unfold M64 in *; lia.
+Qed.
+
+Lemma insert_ss_safe s index x is count :
+  Inv L s -> index < M64 -> nlen x + 1 < M64 -> safe L (insert_ss L s index x is count).
+Proof.
+  intros Hs Hi Hx. unfold insert_ss.
+  destruct (N.ltb_spec (nlen x) is); [apply safe_ok; assumption|]. cbv zeta.
+  unfold substr_of.
+  apply insert_pc_safe; try assumption; rewrite ?nlen_carr, ?nlen_take, ?nlen_drop; unfold M64 in *; lia.
+Qed.
+
+Lemma insert_fss_safe s o index is count :
+  Inv L s -> Inv L o -> index < M64 -> is < M64 -> count < M64 ->
+  safe L (insert_fss L s o index is count).
+Proof.
+  intros Hs (Hbo & Hlo & Hzo) Hi His Hc. unfold insert_fss. destruct HL as [HL1 HL2].
+  destruct (N.ltb_spec (len o) is); [apply safe_ok; assumption|].
+  rewrite sub64_small by (unfold M64 in *; lia).
+  apply insert_pc_safe; try assumption; rewrite ?nlen_drop, ?Hbo; unfold M64 in *; lia.
+Qed.
+
+(** operations that return the object together with something else *)
+Definition safe2 {A} (r : res (fs * A)) : Prop := exists s' a, r = Ok (s', a) /\ Inv L s'.
+
+Lemma insert_it_safe s p count ch :
+  Inv L s -> count < M64 -> safe2 (insert_it L s p count ch).
+Proof.
+  intros Hs Hc. unfold insert_it, it_at. destruct HL as [HL1 HL2].
+  pose proof Hs as (Hb & Hl & Hz).
+  destruct (N.ltb_spec p (len s)).
+  - destruct (N.eqb_spec p NPOS); [unfold NPOS, M64 in *; lia|].
+    destruct (insert_nc_safe s p count ch) as (s' & E & Hs'); [assumption|unfold M64 in *; lia|assumption|].
+    rewrite E. cbn [bind]. eexists _, _. split; [reflexivity|assumption].
+  - rewrite N.eqb_refl. eexists _, _. split; [reflexivity|assumption].
+Qed.
+
+Lemma erase_it_safe s p : Inv L s -> safe2 (erase_it L s p).
+Proof.
+  intros Hs. unfold erase_it, it_at. destruct HL as [HL1 HL2].
+  pose proof Hs as (Hb & Hl & Hz).
+  destruct (N.ltb_spec p (len s)).
+  - destruct (N.eqb_spec p NPOS); [unfold NPOS, M64 in *; lia|].
+    destruct (erase_safe s p 1) as (s' & E & Hs'); [assumption|unfold M64 in *; lia|unfold M64; lia|].
+    rewrite E. cbn [bind]. eexists _, _. split; [reflexivity|assumption].
+  - rewrite N.eqb_refl. eexists _, _. split; [reflexivity|assumption].
+Qed.
+
+Lemma erase_itr_safe s p q : Inv L s -> safe2 (erase_itr L s p q).
+Proof.
+  intros Hs. unfold erase_itr, it_at. cbv zeta. destruct HL as [HL1 HL2].
+  pose proof Hs as (Hb & Hl & Hz).
+  destruct (N.ltb_spec p (len s)).
+  - destruct (N.eqb_spec p NPOS); [unfold NPOS, M64 in *; lia|]. cbn [orb].
+    match goal with |- context [p =? ?iq] => destruct (N.eqb_spec p iq) end.
+    + eexists _, _. split; [reflexivity|assumption].
+    + match goal with |- context [erase L s p ?c] =>
+        destruct (erase_safe s p c) as (s' & E & Hs'); [assumption|unfold M64 in *; lia| |] end.
+      * destruct (N.ltb_spec q (len s)).
+        -- destruct (N.eqb_spec q NPOS); [unfold NPOS, M64; lia|apply sub64_lt].
+        -- rewrite N.eqb_refl. unfold NPOS, M64. lia.
+      * rewrite E. cbn [bind]. eexists _, _. split; [reflexivity|assumption].
+  - rewrite N.eqb_refl. cbn [orb]. eexists _, _. split; [reflexivity|assumption].
+Qed.
+
+Lemma swap_safe s o :
+  Inv L s -> Inv L o -> exists s' o', swap L s o = Ok (s', o') /\ Inv L s' /\ Inv L o'.
+Proof.
+  intros Hs Ho. pose proof Hs as (Hb & Hl & Hz). pose proof Ho as (Hbo & Hlo & Hzo).
+  unfold swap. cbv zeta. destruct HL as [HL1 HL2].
+  destruct (N.eqb_spec (len s) 0) as [E0|E0].
+  - destruct (N.ltb_spec 0 (len o)).
+    + rewrite add64_small by (unfold M64 in *; lia).
+      rewrite mcpy_ok by side. destruct (N.eqb_spec (len o + 1) 0); [lia|]. cbn [bind].
+      destruct (wr_safe (buf o) 0 0) as (bo & E & Hlb & Hn & _); [side|]. rewrite E. cbn [bind].
+      eexists _, _. split; [reflexivity|]. rewrite !trunc_id by (assumption || lia). split.
+      * repeat split; cbn [buf len]; [rewrite nlen_blit; rewrite ?nlen_take, ?nlen_drop; lia|assumption|].
+        rewrite nthN_blit by (rewrite nlen_take, nlen_drop; lia).
+        rewrite nlen_take, nlen_drop.
+        destruct (N.ltb_spec (len o) 0); [lia|].
+        destruct (N.ltb_spec (len o) (0 + N.min (len o + 1) (nlen (buf o) - 0))); [|lia].
+        rewrite nthN_take, nthN_drop. destruct (N.ltb_spec (len o - 0) (len o + 1)); [|lia].
+        replace (0 + (len o - 0)) with (len o) by lia. assumption.
+      * repeat split; cbn [buf len]; [lia|lia|assumption].
+    + eexists _, _. split; [reflexivity|]. split; assumption.
+  - destruct (N.eqb_spec (len o) 0) as [Eo|Eo].
+    + rewrite add64_small by (unfold M64 in *; lia).
+      rewrite mcpy_ok by side. destruct (N.eqb_spec (len s + 1) 0); [lia|]. cbn [bind].
+      destruct (wr_safe (buf s) 0 0) as (bs & E & Hlb & Hn & _); [side|]. rewrite E. cbn [bind].
+      eexists _, _. split; [reflexivity|]. rewrite !trunc_id by (assumption || lia). split.
+      * repeat split; cbn [buf len]; [lia|lia|assumption].
+      * repeat split; cbn [buf len]; [rewrite nlen_blit; rewrite ?nlen_take, ?nlen_drop; lia|assumption|].
+        rewrite nthN_blit by (rewrite nlen_take, nlen_drop; lia).
+        rewrite nlen_take, nlen_drop.
+        destruct (N.ltb_spec (len s) 0); [lia|].
+        destruct (N.ltb_spec (len s) (0 + N.min (len s + 1) (nlen (buf s) - 0))); [|lia].
+        rewrite nthN_take, nthN_drop. destruct (N.ltb_spec (len s - 0) (len s + 1)); [|lia].
+        replace (0 + (len s - 0)) with (len s) by lia. assumption.
+    + rewrite !add64_small by (unfold M64 in *; lia).
+      assert (Hr : nlen (rep 0 (L + 1)) = L + 1) by apply nlen_rep.
+      rewrite (mcpy_ok (rep 0 (L + 1))) by side.
+      destruct (N.eqb_spec (len s + 1) 0); [lia|]. cbn [bind].
+      rewrite (mcpy_ok (buf s)) by side.
+      destruct (N.eqb_spec (len o + 1) 0); [lia|]. cbn [bind].
+      set (t := blit (rep 0 (L + 1)) 0 (take (len s + 1) (drop 0 (buf s)))).
+      assert (Ht : nlen t = L + 1)
+        by (unfold t; rewrite nlen_blit; rewrite ?nlen_take, ?nlen_drop; lia).
+      rewrite (mcpy_ok (buf o)) by side.
+      destruct (N.eqb_spec (len s + 1) 0); [lia|]. cbn [bind].
+      eexists _, _. split; [reflexivity|]. rewrite !trunc_id by (assumption || lia). split.
+      * repeat split; cbn [buf len]; [rewrite nlen_blit; rewrite ?nlen_take, ?nlen_drop; lia|assumption|].
+        rewrite nthN_blit by (rewrite nlen_take, nlen_drop; lia).
+        rewrite nlen_take, nlen_drop.
+        destruct (N.ltb_spec (len o) 0); [lia|].
+        destruct (N.ltb_spec (len o) (0 + N.min (len o + 1) (nlen (buf o) - 0))); [|lia].
+        rewrite nthN_take, nthN_drop. destruct (N.ltb_spec (len o - 0) (len o + 1)); [|lia].
+        replace (0 + (len o - 0)) with (len o) by lia. assumption.
+      * repeat split; cbn [buf len]; [rewrite nlen_blit; rewrite ?nlen_take, ?nlen_drop; lia|assumption|].
+        rewrite nthN_blit by (rewrite nlen_take, nlen_drop; lia).
+        rewrite nlen_take, nlen_drop.
+        destruct (N.ltb_spec (len s) 0); [lia|].
+        destruct (N.ltb_spec (len s) (0 + N.min (len s + 1) (nlen t - 0))); [|lia].
+        rewrite nthN_take, nthN_drop. destruct (N.ltb_spec (len s - 0) (len s + 1)); [|lia].
+        replace (0 + (len s - 0)) with (len s) by lia.
+        unfold t. rewrite nthN_blit by (rewrite nlen_take, nlen_drop; lia).
+        rewrite nlen_take, nlen_drop.
+        destruct (N.ltb_spec (len s) 0); [lia|].
+        destruct (N.ltb_spec (len s) (0 + N.min (len s + 1) (nlen (buf s) - 0))); [|lia].
+        rewrite nthN_take, nthN_drop. destruct (N.ltb_spec (len s - 0) (len s + 1)); [|lia].
+        replace (0 + (len s - 0)) with (len s) by lia. assumption.
 Qed.
 
 End Safe.
